@@ -9,6 +9,7 @@ import (
 
 	"github.com/256dpi/gomqtt/client"
 	"github.com/256dpi/gomqtt/packet"
+	"github.com/256dpi/gomqtt/session"
 
 	"verif/internal/bh"
 	"verif/internal/ch"
@@ -47,11 +48,25 @@ func clientResend(r *h.Run, idx int) {
 		r.Violation("client/"+key, fmt.Sprintf("client resend #%d (%d unacknowledged): %s", idx, k, msg), map[string]interface{}{"detail": msg, "event_log_tail": srv.Log.Dump(120)})
 	}
 	sess := ch.NewSession(srv.Log)
+	// a third of the runs start the packet id counter just below the 16-bit
+	// wrap-around, so the unacknowledged window spans ... 65535, 1, 2 ...
+	start := 1
+	if idx%3 == 2 {
+		start = 65535 - rng.Intn(k)
+		sess.Inner.Counter = session.NewIDCounterWithNext(packet.ID(start))
+	}
+	seqID := func(i int) packet.ID { // id of the i-th publish (1-based)
+		v := start + i - 1
+		if v > 65535 {
+			v -= 65535
+		}
+		return packet.ID(v)
+	}
 	for i := 1; i <= k; i++ {
 		if rng.Intn(3) == 0 {
-			recFor[packet.ID(i)] = true
+			recFor[seqID(i)] = true
 		} else if i > 1 && i < k && rng.Intn(3) == 0 {
-			ackFor[packet.ID(i)] = true
+			ackFor[seqID(i)] = true
 		}
 	}
 	c1 := client.New()
@@ -64,7 +79,7 @@ func clientResend(r *h.Run, idx int) {
 	nrec := 0
 	for i := 1; i <= k; i++ {
 		q := packet.QOS(1 + rng.Intn(2))
-		if recFor[packet.ID(i)] && q == 2 {
+		if recFor[seqID(i)] && q == 2 {
 			nrec++
 		}
 		if _, err := c1.Publish("cr/x", []byte(fmt.Sprintf("cr-%03d", i)), q, false); err != nil {
